@@ -20,7 +20,7 @@ CONSTANTS
     Devs,       \* onboarded devices: voucher with one entry in the owner store
     Reuse,      \* BOOLEAN: the owner offers credential reuse
     NMods,      \* number of owner service-info modules (each completes in one round)
-    Policy,     \* rendezvous TTL policy: "none" (requested ttl is used), "fixed" (600 s), "zero" (reject)
+    Policy,     \* rendezvous TTL policy: "none" (requested ttl is used), "fixed" (600 s), "short" (2 s), "zero" (reject)
     Forge64,    \* forged TO2.ProveDevice classes (C02)
     Forge22,    \* forged TO0.OwnerSign classes (C06)
     Forge32,    \* forged TO1.ProveToRV classes (C07)
@@ -29,7 +29,8 @@ CONSTANTS
 
 VARIABLES
     sess,       \* [Slots -> session record]
-    rv,         \* [Devs -> {"none","reg","expired"}]   rendezvous registrations
+    rv,         \* [Devs -> {"none","reg","regnc","expired"}]   rendezvous registrations ("regnc": the registered
+                \* voucher has no device certificate chain, so no requester can prove the device key)
     ov,         \* [Devs -> {"orig","replaced"}]        owner voucher store
     nvouch,     \* number of vouchers added by DI
     cred,       \* [Devs -> {"orig","new"}]  which credential (GUID) the device holds
@@ -52,7 +53,7 @@ NoSess == [proto |-> "none", live |-> FALSE, dev |-> "none", g |-> "orig", st |-
 
 AllDone == NMods + 1      \* value of `mod` once every owner module completed
 ReqTTL == 3600            \* what the honest owner asks for
-TTL == IF Policy = "fixed" THEN 600 ELSE ReqTTL   \* accepted time-to-live: stored expiry and reply
+TTL == CASE Policy = "fixed" -> 600 [] Policy = "short" -> 2 [] OTHER -> ReqTTL   \* accepted time-to-live: stored expiry and reply
 
 Init ==
     /\ sess = [s \in Slots |-> NoSess]
@@ -131,10 +132,10 @@ Respond(s, r, t, b) ==
             IF b = "honest" /\ {"guid", "pnonce", "kexA"} \subseteq r.st /\ "kexDone" \notin r.st
                /\ Has(ov)
             THEN ok(65, r.st \cup {"snonce", "kexDone"} \cup (IF Reuse THEN {} ELSE {"rguid", "rvinfo"}),
-                    r.mod, <<>>, rv, ov, nvouch)
+                    r.mod, <<[k |-> "KeysStored", s |-> s]>>, rv, ov, nvouch)     \* tunnel keys are stored only now
             ELSE fail
       [] t = 66 ->
-            IF b \in {"honest", "replay"} /\ "kexDone" \in r.st
+            IF b \in {"honest", "replay", "skip"} /\ "kexDone" \in r.st
             THEN ok(67, r.st \cup {"mtu"} \cup (IF Reuse THEN {} ELSE {"rhmac"}), r.mod, <<>>, rv, ov, nvouch)
             ELSE fail
       [] t = 68 ->
@@ -142,11 +143,11 @@ Respond(s, r, t, b) ==
             \* module consumes it, which may take more than one message (the device yields
             \* after "nummodules"); afterwards owner module `mod` handles the message and, unless
             \* the device announced more to come, produces and completes.
-            IF b \in {"honest", "replay"} /\ {"kexDone", "mtu"} \subseteq r.st /\ r.mod # AllDone /\ Has(ov)
+            IF b \in {"honest", "replay", "skip"} /\ {"kexDone", "mtu"} \subseteq r.st /\ r.mod # AllDone /\ Has(ov)
             THEN LET fx == IF r.mod = 0 THEN <<>> ELSE <<[k |-> "ModuleCall", s |-> s, m |-> r.mod]>>
                      adv == ok(69, r.st \cup {"devmod"}, r.mod + 1, fx, rv, ov, nvouch)
                      stay == ok(69, r.st \cup {"devmod"}, r.mod, fx, rv, ov, nvouch)
-                 IN IF r.mod = 0 \/ b = "replay" THEN adv \cup stay ELSE adv
+                 IN IF r.mod = 0 \/ b \in {"replay", "skip"} THEN adv \cup stay ELSE adv
             ELSE fail
       [] t = 70 ->
             IF b \in {"honest", "skip"} /\ {"kexDone", "pnonce", "snonce"} \subseteq r.st
@@ -174,7 +175,7 @@ Start(s, p, d) ==
            bad == Dead(base)
            r == CASE p = "DI"  -> good({"chain", "hdr"}, 12)
                   [] p = "TO0" -> good({"nonce0"}, 22)
-                  [] p = "TO1" -> IF rv[d] = "reg" /\ cred[d] = "orig" THEN good({"nonce1"}, 32) ELSE bad
+                  [] p = "TO1" -> IF rv[d] \in {"reg", "regnc"} /\ cred[d] = "orig" THEN good({"nonce1"}, 32) ELSE bad
                   [] p = "TO2" -> IF ov[d] = "orig" /\ cred[d] = "orig" THEN good({"guid", "pnonce", "kexA"}, 62) ELSE bad
            resp == IF r.live THEN StartType[p] + 1 ELSE 255
        IN /\ sess' = [sess EXCEPT ![s] = r]
@@ -218,16 +219,23 @@ Mutated(s, atom) ==
     /\ r.proto # "none" /\ r.cnext # 0
     /\ atom \in ForgeSet(r.cnext)
     /\ (r.cnext = 22 => ov[r.dev] = "orig" /\ r.g = "orig")
-    /\ sess' = [sess EXCEPT ![s] = Dead(r)]
-    /\ last' = Record("forged", s, r.cnext, "own", atom, 255, <<>>, FALSE)
-    /\ UNCHANGED <<rv, ov, nvouch, cred>>
+    /\ IF atom = "strip_certchain" /\ r.live /\ "nonce0" \in r.st /\ Policy # "zero"
+       THEN \* not a forgery: the genuine owner registers its voucher without the device certificate
+            \* chain; the registration is accepted, but nobody can ever prove the device key for it
+            /\ sess' = [sess EXCEPT ![s] = Dead([r EXCEPT !.prog = 2, !.sent = r.sent \cup {22}])]
+            /\ rv' = [rv EXCEPT ![r.dev] = "regnc"]
+            /\ last' = Record("forged", s, 22, "own", atom, 23, <<[k |-> "SetRVBlob", s |-> s, d |-> r.dev, ttl |-> TTL]>>, FALSE)
+            /\ UNCHANGED <<ov, nvouch, cred>>
+       ELSE /\ sess' = [sess EXCEPT ![s] = Dead(r)]
+            /\ last' = Record("forged", s, r.cnext, "own", atom, 255, <<>>, FALSE)
+            /\ UNCHANGED <<rv, ov, nvouch, cred>>
     /\ nreq' = nreq + 1
 
 (* Inject(s, t, tok, b): an out-of-band request of type t carrying the token of *)
 (* slot s (or none / a damaged one) and a replayed, foreign, crafted or         *)
 (* malformed body.                                                              *)
 CanReplay(r, t) == t \in r.sent
-CanSkip(r, t)   == t = 70 /\ r.proto = "TO2" /\ r.proven   \* the device holds the tunnel keys and nonces (it received 65)
+CanSkip(r, t)   == t \in {66, 68, 70} /\ r.proto = "TO2" /\ r.proven   \* the device holds the tunnel keys and nonces (it received 65)
 
 Inject(s, t, tok, b) ==
     LET r == sess[s] IN
@@ -295,7 +303,7 @@ OrphanStart(s, t, b) ==
     /\ (b = "replay" => t \in sess[s].sent)
     /\ LET r == sess[s]
            resps == IF b = "garbage" THEN (IF t = 20 THEN {21, 255} ELSE {255})   \* TO0.Hello is an empty array: some garbage is a valid Hello
-                   ELSE {CASE t = 30 -> IF rv[r.dev] = "reg" /\ r.g = "orig" THEN 31 ELSE 255
+                   ELSE {CASE t = 30 -> IF rv[r.dev] \in {"reg", "regnc"} /\ r.g = "orig" THEN 31 ELSE 255
                           [] t = 60 -> IF ov[r.dev] = "orig" /\ r.g = "orig" THEN 61 ELSE 255
                           [] OTHER -> t + 1}
        IN \E resp \in resps : last' = Record("orphan", s, t, "own", b, resp, <<>>, sess[s].live)
@@ -313,7 +321,7 @@ ErrorMsg(s, tok) ==
 
 (* Time passes: a registration expires. *)
 Expire(d) ==
-    /\ rv[d] = "reg"
+    /\ rv[d] \in {"reg", "regnc"}
     /\ rv' = [rv EXCEPT ![d] = "expired"]
     /\ last' = [kind |-> "expire", d |-> d]
     /\ UNCHANGED <<sess, ov, nvouch, cred, nreq>>
@@ -347,7 +355,7 @@ Bound == nreq < MaxReq
 
 TypeOK ==
     /\ \A s \in Slots : sess[s].proto \in Protos \cup {"none"} /\ sess[s].mod \in 0..AllDone
-    /\ \A d \in Devs : rv[d] \in {"none", "reg", "expired"} /\ ov[d] \in {"orig", "replaced"}
+    /\ \A d \in Devs : rv[d] \in {"none", "reg", "regnc", "expired"} /\ ov[d] \in {"orig", "replaced"}
 
 IsReq == last.kind \in {"start", "honest", "forged", "inject", "orphan", "errmsg", "mutant"}
 
@@ -361,6 +369,7 @@ InOrder ==
       LET r == sess[last.s] IN
       /\ ("AddVoucher" \in FxKinds     => r.proto = "DI"  /\ r.prog = 2 /\ last.t = 12 /\ last.resp = 13)
       /\ ("SetRVBlob" \in FxKinds      => r.proto = "TO0" /\ r.prog = 2 /\ last.t = 22 /\ last.resp = 23)
+      /\ ("KeysStored" \in FxKinds     => r.proto = "TO2" /\ r.proven /\ last.t = 64 /\ last.resp = 65)
       /\ ("ModuleCall" \in FxKinds     => r.proto = "TO2" /\ r.prog = 4 /\ last.t = 68)
       /\ ("ReplaceVoucher" \in FxKinds => r.proto = "TO2" /\ r.prog = 5 /\ last.t = 70 /\ last.resp = 71)
 
@@ -383,7 +392,7 @@ ProvenOnlyByHonest64 ==
     \A s \in Slots : sess[s].proven => 64 \in sess[s].sent
 
 (* C06 / C07: forged requests are refused. *)
-ForgedRefused == IsReq /\ last.kind = "forged" => last.resp = 255 /\ last.fx = <<>> /\ ~last.live
+ForgedRefused == IsReq /\ last.kind = "forged" /\ last.b # "strip_certchain" => last.resp = 255 /\ last.fx = <<>> /\ ~last.live
 
 (* C07: a redirect is released only while the registration is valid. *)
 RedirectNeedsRegistration ==
@@ -398,7 +407,7 @@ DeadStaysDead ==
 StoresChangeOnlyByProtocol ==
     [][ /\ (ov' # ov => last'.kind \in {"honest", "inject", "mutant"} /\ last'.t = 70 /\ last'.resp = 71)
         /\ (nvouch' # nvouch => last'.t = 12 /\ last'.resp = 13)
-        /\ (\E d \in Devs : rv'[d] = "reg" /\ rv[d] # "reg") => (last'.t = 22 /\ last'.resp = 23 /\ last'.b \in {"honest", "mutant"})
+        /\ (\E d \in Devs : rv'[d] \in {"reg", "regnc"} /\ rv[d] # rv'[d]) => (last'.t = 22 /\ last'.resp = 23 /\ last'.b \in {"honest", "mutant", "strip_certchain"})
       ]_vars
 
 =============================================================================
